@@ -11,7 +11,8 @@ from typing import Any, Final, Literal, Self
 
 from pymap.concurrent import Event, ReadWriteLock
 from pymap.context import subsystem
-from pymap.exceptions import MailboxHasChildren, NotSupportedError
+from pymap.exceptions import MailboxHasChildren, MailboxNotFound, \
+    NotSupportedError
 from pymap.flags import FlagOp
 from pymap.interfaces.message import CachedMessage
 from pymap.listtree import ListTree
@@ -502,7 +503,9 @@ class MailboxSet(MailboxSetInterface[MailboxData]):
         try:
             self._layout.add_folder(name, self.delimiter)
         except FileExistsError as exc:
-            raise KeyError(name) from exc
+            raise ValueError(name) from exc
+        except FileNotFoundError as exc:
+            raise MailboxNotFound(name) from exc
         path = self._layout.get_path(name, self.delimiter)
         async with UidList.with_init(path) as uidl:
             global_uid = uidl.global_uid
@@ -521,5 +524,20 @@ class MailboxSet(MailboxSetInterface[MailboxData]):
     async def rename_mailbox(self, before: str, after: str) -> None:
         if before == 'INBOX':
             raise NotSupportedError()  # TODO
+        try:
+            self._layout.get_folder(before, self.delimiter)
+        except FileNotFoundError as exc:
+            raise KeyError(before) from exc
+        try:
+            self._layout.get_folder(after, self.delimiter)
+        except FileNotFoundError:
+            pass
         else:
+            raise ValueError(after)
+        try:
             self._layout.rename_folder(before, after, self.delimiter)
+        except FileNotFoundError as exc:
+            raise MailboxNotFound(after) from exc
+        except OSError as exc:
+            raise ValueError(after) from exc
+        self._cache.pop(before, None)
